@@ -47,7 +47,23 @@ func TestC05(t *testing.T) {
 func TestC17(t *testing.T) {
 	params := C05Params(thorough())
 	params.Probes = true
+	fill := C12Params(thorough())
+	fill.MaxBlocks = 3
 	checkQueue(t, "C17", func(rt *rapid.T) *harness.QProgram {
+		if rapid.IntRange(0, 15).Draw(rt, "smallfile") == 0 {
+			// small bounded file: flushes fail and are retried; counters and callback
+			// totals must still be exact at every probe
+			p := harness.GenQFillProgram(rt, fill)
+			var steps []harness.QStep
+			for _, s := range p.Steps {
+				steps = append(steps, s)
+				if s.K == harness.QAckAll || s.K == harness.QFlush || s.K == harness.QAck {
+					steps = append(steps, harness.QStep{K: harness.QProbe})
+				}
+			}
+			p.Steps = append(steps, harness.QStep{K: harness.QReopenF}, harness.QStep{K: harness.QProbe})
+			return p
+		}
 		p := harness.GenQProgram(rt, params)
 		// always end with a probe after a reopen
 		p.Steps = append(p.Steps, harness.QStep{K: harness.QProbe}, harness.QStep{K: harness.QReopenF}, harness.QStep{K: harness.QProbe})
